@@ -509,6 +509,34 @@ struct SackOutcome {
     max_reported: u32,
 }
 
+/// A SACK is stale when a later one has already been processed: its cumulative ack lies
+/// behind our ack point, or it repeats the ack point while some chunk we already hold as
+/// gap-acknowledged lies beyond everything it reports.
+fn sack_is_stale(
+    sent_queue: &BTreeMap<u32, ChunkRecord>,
+    ack_point: u32,
+    cumulative_tsn_ack: u32,
+    gap_blocks: &[(u16, u16)],
+) -> bool {
+    let behind = (cumulative_tsn_ack.wrapping_sub(ack_point) as i32) < 0;
+    if behind {
+        return true;
+    }
+    if cumulative_tsn_ack != ack_point {
+        return false;
+    }
+    let mut max_reported = cumulative_tsn_ack;
+    for (_start, end) in gap_blocks {
+        let block_end = cumulative_tsn_ack.wrapping_add(*end as u32);
+        if (block_end.wrapping_sub(max_reported) as i32) > 0 {
+            max_reported = block_end;
+        }
+    }
+    sent_queue
+        .iter()
+        .any(|(tsn, record)| record.acked && (tsn.wrapping_sub(max_reported) as i32) > 0)
+}
+
 fn apply_sack_to_sent_queue(
     sent_queue: &mut BTreeMap<u32, ChunkRecord>,
     cumulative_tsn_ack: u32,
@@ -1880,18 +1908,6 @@ impl SctpInner {
             let a_rwnd = buf.get_u32();
             let num_gap_ack_blocks = buf.get_u16();
             let _num_duplicate_tsns = buf.get_u16();
-            let old_rwnd = self.peer_rwnd.swap(a_rwnd, Ordering::SeqCst);
-
-            // Log peer_rwnd to understand flow control
-            if a_rwnd < 100000 {
-                trace!(
-                    "Received SACK: peer_rwnd LOW = {} (was {})",
-                    a_rwnd, old_rwnd
-                );
-            }
-
-            self.flow_control_notify.notify_one();
-            self.flow_control_notify.notify_waiters();
 
             let mut gap_blocks = Vec::new();
             for _ in 0..num_gap_ack_blocks {
@@ -1900,6 +1916,35 @@ impl SctpInner {
                 }
                 gap_blocks.push((buf.get_u16(), buf.get_u16()));
             }
+
+            // The advertised window describes the receiver at the moment the SACK was built.
+            // A SACK that was overtaken on the path (RFC 4960 6.2.1: cumulative ack behind
+            // our ack point, or the same cumulative ack reporting less than we already know
+            // to have arrived) describes an earlier moment: taking its a_rwnd would reopen a
+            // window the receiver has since filled, and new DATA would be sent into it.
+            let stale = {
+                let sent_queue = self.sent_queue.lock();
+                let ack_point = sent_queue
+                    .keys()
+                    .next()
+                    .map(|lowest| lowest.wrapping_sub(1))
+                    .unwrap_or_else(|| self.next_tsn.load(Ordering::SeqCst).wrapping_sub(1));
+                sack_is_stale(&sent_queue, ack_point, cumulative_tsn_ack, &gap_blocks)
+            };
+            if !stale {
+                let old_rwnd = self.peer_rwnd.swap(a_rwnd, Ordering::SeqCst);
+
+                // Log peer_rwnd to understand flow control
+                if a_rwnd < 100000 {
+                    trace!(
+                        "Received SACK: peer_rwnd LOW = {} (was {})",
+                        a_rwnd, old_rwnd
+                    );
+                }
+            }
+
+            self.flow_control_notify.notify_one();
+            self.flow_control_notify.notify_waiters();
 
             let sack_sig = {
                 let mut sig = (cumulative_tsn_ack as u64) << 32;
